@@ -143,6 +143,56 @@ Qed.
 Lemma has_dir_app : forall nm a b, has_dir nm (a ++ b) = (has_dir nm a || has_dir nm b)%bool.
 Proof. induction a as [|d a IH]; intros b; cbn [has_dir app]; [reflexivity|]. rewrite IH, orb_assoc. reflexivity. Qed.
 
+Lemma In_dedup_sub : forall l seen x, In x (dedup seen l) -> In x l.
+Proof.
+  induction l as [|y l IH]; intros seen x H; cbn [dedup] in H; [destruct H|].
+  destruct (existsb (bytes_eqb y) seen).
+  - right. eapply IH. exact H.
+  - destruct H as [<-|H]; [left; reflexivity|right; eapply IH; exact H].
+Qed.
+
+(* every pipeline that exists after NewOrchestrator was made for the keys some listed id splits into *)
+Lemma init_ids_origin : forall parts n ids g lm g' lm',
+  init_ids parts n g lm ids = Ok (g', lm') ->
+  forall p, In p (g_pipes g') -> In p (g_pipes g) \/ exists id, In id ids /\ recover_keys n id = Some (p_keys p).
+Proof.
+  induction ids as [|id ids IH]; intros g lm g' lm' H p Hp; cbn [init_ids] in H.
+  - inversion H; subst. left. exact Hp.
+  - destruct (recover_keys n id) as [ks|] eqn:Hr.
+    + unfold obind in H. destruct (local_get_or_create parts g lm ks) as [[[g1 lm1] i1]| |] eqn:Hg; try discriminate.
+      destruct (IH _ _ _ _ H p Hp) as [H1|[id' [Hin Hk]]].
+      * destruct (local_goc_origin _ _ _ _ _ _ _ Hg p H1) as [H0|Hk]; [left; exact H0|].
+        right. exists id. split; [left; reflexivity|]. rewrite Hk. exact Hr.
+      * right. exists id'. split; [right; exact Hin|exact Hk].
+    + destruct (IH _ _ _ _ H p Hp) as [H1|[id' [Hin Hk]]]; [left; exact H1|].
+      right. exists id'. split; [right; exact Hin|exact Hk].
+Qed.
+
+Lemma orch_init_origin : forall parts n ids g0, orch_init parts n ids = Ok g0 ->
+  forall p, In p (g_pipes g0) ->
+    (exists id, In id ids /\ recover_keys n id = Some (p_keys p)) /\ p_id p = pipeline_id (p_keys p).
+Proof.
+  intros parts n ids g0 Hinit p Hp. unfold orch_init, obind in Hinit.
+  destruct (init_ids parts n g_init [] ids) as [[g1 lm1]| |] eqn:Hi; try discriminate. inversion Hinit; subst g1; clear Hinit.
+  split.
+  - destruct (init_ids_origin _ _ _ _ _ _ _ Hi p Hp) as [[]|H]. exact H.
+  - destruct (init_ids_spec _ _ _ _ _ _ _ (inv_init parts 1) Hi) as [[_ _ Hpok _] _].
+    apply In_nth_error in Hp. destruct Hp as [i Hi']. exact (proj1 (Hpok _ _ Hi')).
+Qed.
+
+(* no phantom pipelines: after the restart and any run, every pipeline was made for the keys of a listed id or of a record *)
+Lemma routing_no_phantom_lemma :
+  forall parts n ids nsinks ops g0 g lms is,
+    orch_init parts n ids = Ok g0 ->
+    run_ops parts g0 (repeat [] nsinks) ops = Ok (g, lms, is) ->
+    forall p, In p (g_pipes g) ->
+      (exists id, In id ids /\ recover_keys n id = Some (p_keys p)) \/ (exists o, In o ops /\ p_keys p = snd o).
+Proof.
+  intros parts n ids nsinks ops g0 g lms is Hinit Hrun p Hp.
+  destruct (run_ops_origin _ _ _ _ _ _ _ Hrun p Hp) as [H0|Ho]; [left|right; exact Ho].
+  exact (proj1 (orch_init_origin _ _ _ _ Hinit p H0)).
+Qed.
+
 Section Restart.
   Variable md5hex : bytes -> bytes.
   Hypothesis md5hex_len : forall s, length (md5hex s) = 32%nat.
@@ -294,58 +344,64 @@ Section Restart.
 
   (* ---------- the restart theorem ---------- *)
 
+  (* what the on-disk format can represent: arity n, no "," in a value, non-empty id, directory name within NAME_MAX *)
+  Definition storable (n : nat) (ks : list bytes) : Prop :=
+    length ks = n /\ no_comma ks /\ pipeline_id ks <> [] /\ (length (pipeline_id ks) + 9 <= NAME_MAX)%nat.
+
   Lemma restart_reattaches_lemma :
-    forall parts n umask recs g lms is root0 refs root g2,
-      Forall (fun ks => length ks = n /\ no_comma ks /\ pipeline_id ks <> [] /\
-                        (length (pipeline_id ks) + 9 <= NAME_MAX)%nat) recs ->
-      (forall ks ks', In ks recs -> In ks' recs -> ks <> ks' ->
-         sanitize (pipeline_id ks) = sanitize (pipeline_id ks') ->
-         tail8 (md5hex (pipeline_id ks)) <> tail8 (md5hex (pipeline_id ks'))) ->
-      run_ops parts g_init [[]] (map (fun ks => (O, ks)) recs) = Ok (g, lms, is) ->
+    forall parts n umask nsinks ops g lms is root0 refs root g2,
+      Forall (fun o => storable n (snd o)) ops ->
+      (forall o o', In o ops -> In o' ops -> snd o <> snd o' ->
+         sanitize (pipeline_id (snd o)) = sanitize (pipeline_id (snd o')) ->
+         tail8 (md5hex (pipeline_id (snd o))) <> tail8 (md5hex (pipeline_id (snd o')))) ->
+      run_ops parts g_init (repeat [] nsinks) ops = Ok (g, lms, is) ->
       make_dirs md5hex umask qroot_empty (g_pipes g) = (root0, refs) ->
       store_chunks root0 refs is O = root ->
       orch_init parts n (dedup [] (list_buffer_ids (root_entries umask root))) = Ok g2 ->
-      forall r ks, nth_error recs r = Some ks ->
+      forall r o, nth_error ops r = Some o ->
         exists d p i, In d (qr_dirs root) /\ In r (qd_chunks d) /\
-                      nth_error (g_pipes g2) i = Some p /\ p_keys p = ks /\
-                      build_tag parts ks = Ok (p_tag p) /\
-                      queue_dir_name md5hex (p_id p) = Some (qd_name d).
+                      nth_error (g_pipes g2) i = Some p /\ p_keys p = snd o /\
+                      build_tag parts (snd o) = Ok (p_tag p) /\
+                      queue_dir_name md5hex (p_id p) = Some (qd_name d) /\
+                      (forall p', In p' (g_pipes g2) -> queue_dir_name md5hex (p_id p') = Some (qd_name d) -> p_keys p' = snd o).
   Proof.
-    intros parts n umask recs g lms is root0 refs root g2 Hrecs Hmd5 Hrun Hdirs Hstore Hinit r ks Hr.
-    set (ops := map (fun ks => (O, ks)) recs) in *.
+    intros parts n umask nsinks ops g lms is root0 refs root g2 Hrecs Hmd5 Hrun Hdirs Hstore Hinit r [si ks] Hr.
+    cbn [snd].
     (* phase A: routing *)
-    pose proof (inv_init parts 1) as Hinv0. cbn [repeat] in Hinv0.
-    destruct (run_ops_spec _ _ _ _ _ _ _ Hinv0 Hrun) as [[_ _ Hpok Hcomp] [_ Hall]].
-    assert (Hrec_of : forall p, In p (g_pipes g) -> In (p_keys p) recs /\ p_id p = pipeline_id (p_keys p)).
-    { intros p Hp. destruct (run_ops_origin _ _ _ _ _ _ _ Hrun p Hp) as [[]|[o [Ho Hk]]].
-      split.
-      - unfold ops in Ho. apply in_map_iff in Ho. destruct Ho as [ks0 [<- Hin]]. cbn in Hk. rewrite Hk. exact Hin.
-      - apply In_nth_error in Hp. destruct Hp as [i Hi]. exact (proj1 (Hpok _ _ Hi)). }
-    assert (Hprop : forall ks0, In ks0 recs -> length ks0 = n /\ no_comma ks0 /\ pipeline_id ks0 <> [] /\
-                                 (length (pipeline_id ks0) + 9 <= NAME_MAX)%nat).
+    destruct (run_ops_spec _ _ _ _ _ _ _ (inv_init parts nsinks) Hrun) as [[_ _ Hpok Hcomp] [_ Hall]].
+    assert (Hrec_of : forall p, In p (g_pipes g) -> (exists o, In o ops /\ p_keys p = snd o) /\ p_id p = pipeline_id (p_keys p)).
+    { intros p Hp. destruct (run_ops_origin _ _ _ _ _ _ _ Hrun p Hp) as [[]|Ho].
+      split; [exact Ho|].
+      apply In_nth_error in Hp. destruct Hp as [i Hi]. exact (proj1 (Hpok _ _ Hi)). }
+    assert (Hprop : forall o, In o ops -> storable n (snd o)).
     { rewrite Forall_forall in Hrecs. exact Hrecs. }
-    (* the pipelines' directories are pairwise different *)
+    (* equal directories => equal key tuples, for tuples of the run *)
+    assert (Hdirinj : forall o o', In o ops -> In o' ops ->
+              dir_of (pipeline_id (snd o)) = dir_of (pipeline_id (snd o')) -> snd o = snd o').
+    { intros o o' Ho Ho' Heq.
+      destruct (Hprop _ Ho) as [_ [_ [Hne _]]]. destruct (Hprop _ Ho') as [_ [_ [Hne' _]]].
+      destruct (list_eq_dec (list_eq_dec N.eq_dec) (snd o) (snd o')) as [E|E]; [exact E|exfalso].
+      assert (Hq1 := queue_dir_name_dir_of _ Hne). assert (Hq2 := queue_dir_name_dir_of _ Hne'). rewrite <- Heq in Hq2.
+      destruct (queue_dir_name_eq md5hex md5hex_len _ _ _ Hq1 Hq2) as [Hs Ht].
+      exact (Hmd5 _ _ Ho Ho' E Hs Ht). }
     assert (Hok : Forall dir_ok (g_pipes g)).
-    { apply Forall_forall. intros p Hp. destruct (Hrec_of p Hp) as [Hin Hid]. destruct (Hprop _ Hin) as [_ [_ [Hne Hlen]]].
-      unfold dir_ok. rewrite dir_of_length, Hid. split; [exact Hne|exact Hlen]. }
+    { apply Forall_forall. intros p Hp. destruct (Hrec_of p Hp) as [[o [Ho Hk]] Hid].
+      destruct (Hprop _ Ho) as [_ [_ [Hne Hlen]]].
+      unfold dir_ok. rewrite dir_of_length, Hid, Hk. split; [exact Hne|exact Hlen]. }
     assert (Hnd : NoDup (map (fun p => dir_of (p_id p)) (g_pipes g))).
     { apply NoDup_map_nth. intros i j a b Hi Hj Heq.
       eapply complete_unique; [exact Hcomp|exact Hi|exact Hj|].
-      destruct (Hrec_of a (nth_error_In _ _ Hi)) as [Hina Hida]. destruct (Hrec_of b (nth_error_In _ _ Hj)) as [Hinb Hidb].
-      destruct (Hprop _ Hina) as [Hla [Hca [Hnea _]]]. destruct (Hprop _ Hinb) as [Hlb [Hcb [Hneb _]]].
-      destruct (list_eq_dec (list_eq_dec N.eq_dec) (p_keys a) (p_keys b)) as [E|E]; [exact E|exfalso].
-      rewrite Hida, Hidb in Heq.
-      assert (Hq1 := queue_dir_name_dir_of _ Hnea). assert (Hq2 := queue_dir_name_dir_of _ Hneb). rewrite <- Heq in Hq2.
-      destruct (queue_dir_name_eq md5hex md5hex_len _ _ _ Hq1 Hq2) as [Hs Ht].
-      exact (Hmd5 _ _ Hina Hinb E Hs Ht). }
+      destruct (Hrec_of a (nth_error_In _ _ Hi)) as [[oa [Hoa Hka]] Hida].
+      destruct (Hrec_of b (nth_error_In _ _ Hj)) as [[ob [Hob Hkb]] Hidb].
+      rewrite Hida, Hidb, Hka, Hkb in Heq. rewrite Hka, Hkb. exact (Hdirinj _ _ Hoa Hob Heq). }
     rewrite make_dirs_fresh in Hdirs; [|exact Hok|exact Hnd|intros p _; reflexivity].
     inversion Hdirs; subst root0 refs; clear Hdirs. cbn [qroot_empty qr_dirs qr_id qr_chunks app] in *.
     (* the record's pipeline and directory *)
-    assert (Hop : nth_error ops r = Some (O, ks)) by (unfold ops; rewrite nth_error_map, Hr; reflexivity).
     destruct (nth_error is r) as [i|] eqn:Hi.
-    2:{ exfalso. apply nth_error_None in Hi. apply Forall2_len in Hall. apply nth_error_lt in Hop. lia. }
-    destruct (Forall2_nth_error _ _ _ _ _ _ _ _ Hall Hop Hi) as [p [Hp [Hpk [Hpid Hptag]]]]. cbn [snd] in *.
-    destruct (Hprop ks (nth_error_In _ _ Hr)) as [Hlen [Hnc [Hne Hnm]]].
+    2:{ exfalso. apply nth_error_None in Hi. apply Forall2_len in Hall. apply nth_error_lt in Hr. lia. }
+    destruct (Forall2_nth_error _ _ _ _ _ _ _ _ Hall Hr Hi) as [p [Hp [Hpk [Hpid Hptag]]]]. cbn [snd] in *.
+    assert (Hin_o : In (si, ks) ops) by exact (nth_error_In _ _ Hr).
+    destruct (Hprop _ Hin_o) as [Hlen [Hnc [Hne Hnm]]]. cbn [snd] in *.
     set (root0 := {| qr_id := None; qr_chunks := []; qr_dirs := map (mk_dir umask) (g_pipes g) |}) in *.
     destruct (store_chunks_spec is root0 (map (fun p => QSub (dir_of (p_id p))) (g_pipes g)) O) as [Hle Hch].
     rewrite Hstore in Hle, Hch.
@@ -355,24 +411,20 @@ Section Restart.
     { apply has_dir_true. exists (mk_dir umask p). split; [|cbn; rewrite Hpid; reflexivity].
       cbn [root0 qr_dirs]. apply in_map. exact (nth_error_In _ _ Hp). }
     destruct (Hch r i _ Hi Href Hhas) as [d [Hd [Hdn Hdr]]]. cbn [Nat.add] in Hdr.
-    (* its .id *)
-    assert (Hdid : qd_id d = Some (pipeline_id ks) /\ qd_perm d = N.land 493 (N.lxor umask 511)).
-    { assert (Hnd0 : NoDup (map qd_name (qr_dirs root0))).
-      { cbn [root0 qr_dirs]. rewrite map_map. cbn [mk_dir qd_name]. exact Hnd. }
-      (* d descends from the directory of the same name in root0, which is p's *)
-      assert (Hfrom : exists d0, In d0 (qr_dirs root0) /\ dir_le d0 d) by exact (dirs_le_In_rev _ _ _ Hle Hd).
-      destruct Hfrom as [d0 [Hd0 [Hn0 [Hid0 [Hp0 _]]]]].
+    (* every directory of the final root carries the id of the pipeline that created it *)
+    assert (Hdir_id : forall d', In d' (qr_dirs root) ->
+              exists q, In q (g_pipes g) /\ qd_name d' = dir_of (p_id q) /\ qd_id d' = Some (p_id q) /\
+                        qd_perm d' = N.land 493 (N.lxor umask 511)).
+    { intros d' Hd'. destruct (dirs_le_In_rev _ _ _ Hle Hd') as [d0 [Hd0 [Hn0 [Hid0 [Hp0 _]]]]].
       cbn [root0 qr_dirs] in Hd0. apply in_map_iff in Hd0. destruct Hd0 as [q [<- Hq]].
-      cbn [mk_dir qd_name qd_id qd_perm] in *.
-      assert (q = p).
-      { apply In_nth_error in Hq. destruct Hq as [j Hj].
-        assert (j = i).
-        { rewrite NoDup_nth_error in Hnd. apply Hnd.
-          - rewrite map_length. apply nth_error_lt in Hj. exact Hj.
-          - rewrite !nth_error_map, Hj, Hp. cbn. f_equal. rewrite Hn0, Hdn, Hpid. reflexivity. }
-        subst j. rewrite Hp in Hj. inversion Hj. reflexivity. }
-      subst q. rewrite <- Hid0, <- Hp0, Hpid. auto. }
-    destruct Hdid as [Hdid Hdperm].
+      cbn [mk_dir qd_name qd_id qd_perm] in *. exists q. repeat split; congruence. }
+    destruct (Hdir_id d Hd) as [q [Hq [Hqn [Hqid Hqperm]]]].
+    assert (Hqks : p_keys q = ks /\ p_id q = pipeline_id ks).
+    { destruct (Hrec_of q Hq) as [[oq [Hoq Hkq]] Hidq].
+      assert (E : snd oq = ks).
+      { apply (Hdirinj oq (si, ks) Hoq Hin_o). cbn [snd]. rewrite <- Hkq, <- Hidq, <- Hqn. exact Hdn. }
+      rewrite Hkq, E in *. split; [reflexivity|exact Hidq]. }
+    destruct Hqks as [Hqk Hqpid]. rewrite Hqpid in Hqid.
     (* phase C: the directory is listed and its id splits back into ks *)
     assert (Hlisted : In (pipeline_id ks) (list_buffer_ids (root_entries umask root))).
     { apply list_buffer_ids_spec.
@@ -381,15 +433,36 @@ Section Restart.
       - unfold root_entries. apply in_or_app. left.
         apply in_map with (f := fun d => {| fe_name := qd_name d; fe_mode := S_IFDIR + qd_perm d; fe_id := qd_id d;
                                            fe_chunks := length (qd_chunks d) |}). exact Hd.
-      - unfold live_queue. cbn [fe_mode fe_id fe_chunks]. split; [|split; [exact Hdid|split; [exact Hne|]]].
-        + rewrite Hdperm. apply dir_mode_any_perm. apply perm_bound. lia.
+      - unfold live_queue. cbn [fe_mode fe_id fe_chunks]. split; [|split; [exact Hqid|split; [exact Hne|]]].
+        + rewrite Hqperm. apply dir_mode_any_perm. apply perm_bound. lia.
         + destruct (qd_chunks d); [destruct Hdr|cbn; lia]. }
     apply In_dedup_nil in Hlisted.
     assert (Hrk : recover_keys n (pipeline_id ks) = Some ks).
     { rewrite <- Hlen. apply recover_keys_roundtrip; [|exact Hnc]. intros ->. apply Hne. reflexivity. }
     destruct (orch_init_recovers_lemma _ _ _ _ Hinit _ _ Hlisted Hrk) as [i2 [p2 [Hp2 [Hk2 [Hid2 Htag2]]]]].
     exists d, p2, i2. split; [exact Hd|]. split; [exact Hdr|]. split; [exact Hp2|]. split; [exact Hk2|]. split; [exact Htag2|].
-    rewrite Hid2, (queue_dir_name_dir_of _ Hne), Hdn. reflexivity.
+    split; [rewrite Hid2, (queue_dir_name_dir_of _ Hne), Hdn; reflexivity|].
+    (* exclusivity: any recovered pipeline attached to this directory has the same key tuple *)
+    intros p' Hp' Hattach.
+    destruct (orch_init_origin _ _ _ _ Hinit p' Hp') as [[id [Hid_in Hid_rk]] Hp'id].
+    apply In_dedup_sub in Hid_in. apply list_buffer_ids_spec in Hid_in.
+    destruct Hid_in as [e [He [Hedir [Heid [Hidne _]]]]].
+    unfold root_entries in He. apply in_app_or in He. destruct He as [He|He].
+    2:{ exfalso. apply in_app_or in He. destruct He as [He|He].
+        - destruct (qr_id root); [|destruct He]. destruct He as [<-|[]]. cbn [fe_mode] in Hedir.
+          rewrite file_mode_any_perm in Hedir by (apply perm_bound; lia). discriminate.
+        - apply in_map_iff in He. destruct He as [rr [<- _]]. cbn [fe_mode] in Hedir.
+          rewrite file_mode_any_perm in Hedir by (apply perm_bound; lia). discriminate. }
+    apply in_map_iff in He. destruct He as [d' [<- Hd']]. cbn [fe_id] in Heid.
+    destruct (Hdir_id d' Hd') as [q' [Hq' [_ [Hq'id _]]]]. rewrite Hq'id in Heid. inversion Heid as [Eid]. clear Heid.
+    destruct (Hrec_of q' Hq') as [[oq' [Hoq' Hkq']] Hidq'].
+    destruct (Hprop _ Hoq') as [Hlenq' _].
+    (* id = id of q' = join of its keys; it splits back into exactly these keys *)
+    assert (Hk' : p_keys p' = snd oq').
+    { apply recover_keys_never_foreign. rewrite Hlenq', <- Hkq', <- Hidq', Eid. exact Hid_rk. }
+    rewrite Hk'. apply (Hdirinj oq' (si, ks) Hoq' Hin_o). cbn [snd].
+    assert (Hne' : pipeline_id (snd oq') <> []) by (destruct (Hprop _ Hoq') as [_ [_ [H _]]]; exact H).
+    rewrite Hp'id, Hk', (queue_dir_name_dir_of _ Hne') in Hattach. inversion Hattach as [E]. rewrite E. exact Hdn.
   Qed.
 End Restart.
 
